@@ -120,7 +120,7 @@ def solve_case(s, cid, rail_rep=False, **kw):
     """one validation case: the projected state, the arguments and whatever solve() returned"""
     args = {"phase": kw.get("phase", ""), "ta": cell(kw.get("ta", 25.0)), "vtol": cell(kw.get("vtol", 1e-6)),
             "itol": cell(kw.get("itol", 1e-6)), "energy": bool(kw.get("energy", False)),
-            "maxiter": int(kw.get("maxiter", 10000))}
+            "maxiter": int(kw.get("maxiter", 10000)), "probe": False}
     case = {"id": cid, "built": True, "st": project(s) if s is not None else EMPTY_ST, "args": args, "kw": {k: v for k, v in kw.items() if k not in ("tags",)}, "outcome": "ok", "exc": "", "msg": "",
             "table": {"cols": ["none"], "rows": [], "isnone": True},
             "rail": {"cols": ["none"], "rows": [], "isnone": True}, "hasrail": False, "railexc": "",
